@@ -35,9 +35,14 @@ def _local_values(fn: FunctionInfo, name: str) -> List[ast.expr]:
                 if isinstance(target, ast.Name) and target.id == name:
                     result.append(node.value)
                 elif isinstance(target, (ast.Tuple, ast.List)):
-                    for elt in target.elts:
+                    pairwise = isinstance(node.value, (ast.Tuple, ast.List)) and \
+                        len(node.value.elts) == len(target.elts) and not any(
+                            isinstance(e, ast.Starred)
+                            for e in list(target.elts) + list(node.value.elts))
+                    for position, elt in enumerate(target.elts):
                         if isinstance(elt, ast.Name) and elt.id == name:
-                            result.append(None)
+                            # a, b = x, y assigns element-wise
+                            result.append(node.value.elts[position] if pairwise else None)
         elif isinstance(node, ast.AnnAssign):
             if isinstance(node.target, ast.Name) and node.target.id == name:
                 result.append(node.value)
